@@ -23,7 +23,20 @@ RULE = ('exhaustive small scope: (categorical, leaky) every cell sequence of len
         '(datetime/date) every accepted layout printed for boundary instants plus malformed texts; Python int() vs the '
         'Gallina py_int on every string of length <= 4 over a 9-symbol alphabet; then seeded random columns of 3..24 '
         'rows split into 1..6 chunks (so companion offsets accumulate over >= 3 chunks) with random buffer layout; and '
-        'end-to-end CSV imports through load_schema with chunk_row_size 1..4. Each direct case costs ~10 ms (HDF5).')
+        'end-to-end CSV imports through load_schema with chunk_row_size 1..4. Each direct case costs ~10 ms (HDF5). '
+        '(SC06) key tables outside ASCII: every table of 2 keys over the 21 strings of <= 2 characters on {a, e-acute, '
+        'U+7537, U+1F600} (1/2/3/4 UTF-8 bytes, so character count and byte count order the keys differently) and every '
+        'table of 3 keys over the 13 strings on the first three (thorough: over all 21), each with all pool strings and '
+        'byte-level near misses of the keys as cells in 2 chunks, insertion order alternated; every table of 2..3 ASCII '
+        'keys of length <= 2; a 128-key table; random tables of 2..6 keys of <= 3 characters over 13 characters. '
+        'Long cells: a ladder of byte widths (every width 1..72, both neighbours of 96 and of the powers of two up to '
+        '1024, 300; thorough: every width to 130 and the neighbours of 2048 and 4096; plus K-1, K, K+1, 2K-1, 2K, 2K+1, 3K '
+        'for every size literal K that is new in the tree under test) x 10 integer and 11 float text forms of exactly '
+        'that width (zero padded, blank padded either side, sign, underscores, all nines, junk / sign / exponent in '
+        'the last bytes, long fraction, exponent at the very end ...), dtype and mode rotated (thorough: all modes), '
+        'alone and next to short cells in the same chunk; keys, bool / date / datetime cells and fixed-string lengths at '
+        'the widths around 32..1024; integer numerals on both sides of CPython\'s 4300-digit limit. The extracted model '
+        'is quadratic in the cell length: 4097 bytes is the affordable maximum.')
 EXHAUSTIVE = {'quick': True, 'thorough': True}
 TRUSTED = ['numpy >= 2 casts an S-string to an integer/float dtype by calling Python int()/float() on it and storing the '
            'result with a range check (OverflowError) - modelled so, exercised by this correspondence',
@@ -39,6 +52,7 @@ TRUSTED = ['numpy >= 2 casts an S-string to an integer/float dtype by calling Py
 ASSUMPTIONS = ['cells lie inside the column\'s region of column_vals (what the CSV reader guarantees)',
                'category keys are distinct (a dict) and category codes are in 0..127',
                'cell texts for bool/datetime columns are ASCII (date columns: any bytes); no NUL bytes inside cells',
+               'category keys are valid UTF-8 text (they are Python str objects in the schema); cells are arbitrary bytes',
                'int64 values on the wire are limited to |v| < 2^62 (OCaml native ints)']
 
 _np = _fi = _ops = _sess = _ds = _parsers = _ls = None
@@ -752,11 +766,12 @@ def _gen_long(tier, rng, budget):
     # CPython's int() refuses numerals of more than 4300 digit characters (leading zeros count; underscores, sign and
     # blanks do not): modelled in py_int, exercised on both sides of the limit
     for w in ((4299, 4300, 4301, 4302) if big else (4300, 4301)):
-        forms = [('zero-padded', ('0' * w + '42')[-w:]), ('lead-blank', ' ' * 5 + ('0' * w + '7')[-w:])]
+        forms = [('zero-padded', ('0' * w + '42')[-w:])]
         if big:
-            forms += [('nines', '9' * w), ('underscores', '0_' * (w - 1) + '7'), ('neg-zero-padded', '-' + '0' * (w - 1) + '5')]
+            forms += [('lead-blank', ' ' * 5 + ('0' * w + '7')[-w:]), ('nines', '9' * w), ('underscores', '0_' * (w - 1) + '7'),
+                      ('neg-zero-padded', '-' + '0' * (w - 1) + '5')]
         for name, c in forms:
-            for mode in (0, 1, 2):
+            for mode in ((0, 1, 2) if big else (1, 2)):
                 yield {'k': 'int', 'dtype': 'int32', 'mode': mode, 'inv': 9, 'chunks': [['1', c]], 'lay': LAYS[mode], 'form': name}
     # structured random: columns that mix short and very long numerals, several chunks
     for _ in range((600 if big else 120) + budget):
@@ -787,7 +802,7 @@ def gen_sc06(tier, rng):
     yield from _gen_long(tier, rng, budget)
 
 
-def gen(tier, rng):
+def _gen_base(tier, rng):
     big = tier == 'thorough'
     # ---- Python int() vs py_int
     alpha = [' ', '+', '-', '_', '0', '1', '9', 'a', '\t']
@@ -799,7 +814,10 @@ def gen(tier, rng):
     for _ in range(3000 if big else 600):
         yield {'k': 'pyint', 't': ''.join(rng.choice(alpha + ['5', '7']) for _ in range(rng.randint(5, 9)))}
     for n in (4299, 4300, 4301):         # sys.get_int_max_str_digits() = 4300
-        for t in ['1' * n, '0' * (n - 1) + '7', ' -' + '0' * (n - 1) + '7 ', '1_' * (n - 1) + '1', '+' + '9' * n, '0' * n + 'x', '_' + '1' * n]:
+        ts = ['0' * (n - 1) + '7', ' -' + '0' * (n - 1) + '7 ', '0' * n + 'x', '_' + '1' * n]
+        if big or n == 4301:            # printing a 4300-digit value costs the extracted model ~6 s: thorough tier only
+            ts += ['1' * n, '1_' * (n - 1) + '1', '+' + '9' * n]
+        for t in ts:
             yield {'k': 'pyint', 't': t}
 
     # ---- categorical / leaky: exhaustive
@@ -992,8 +1010,22 @@ def gen(tier, rng):
         for crs in ((small, small + 1, 2 * small, max(64, small + 2)) if big else (small, max(64, small + 2))):
             d = dict(c); d['via'] = 'csv'; d['crs'] = crs; d['lay'] = [0, 0, 0]
             yield d
-    # ---- SC06: non-ASCII key tables, very long cells (after everything else: the earlier random streams stay as they were)
-    yield from gen_sc06(tier, rng)
+
+
+def gen(tier, rng):
+    """the base families, then (SC06) non-ASCII key tables and very long cells.  The model is quadratic in the cell
+    length (list-based get/set), so the long cells are shuffled and spread evenly over the stream: core.run_model
+    shards the stream into contiguous blocks."""
+    base = list(_gen_base(tier, rng))
+    new = list(gen_sc06(tier, rng))
+    rng.shuffle(new)
+    every = max(1, len(base) // max(1, len(new)))
+    j = 0
+    for i, c in enumerate(base):
+        yield c
+        if i % every == every - 1 and j < len(new):
+            yield new[j]; j += 1
+    yield from new[j:]
 
 
 def shrink(case):
